@@ -2,6 +2,7 @@
 From Coq Require Import Strings.Byte.
 From Coq Require Import List NArith ZArith.
 From Goit Require Import Bytes Obj Regex GoRegex Commit RegexFacts CommitFacts.
+From Goit Require Import Tree Index Config World Repo TreeFacts ExactFacts CommitCmdFacts LogView LogViewFacts.
 Import ListNotations.
 Local Open Scope Z_scope.
 
@@ -51,8 +52,36 @@ Theorem C12_commit_roundtrip : forall tree parent na ea ta oa nc ec tc oc msg,
 Proof. exact commit_roundtrip. Qed.
 
 (* non-vacuity: a non-ASCII name with a space, a dotted e-mail with '+', -03:30 *)
-Example C12_nonvacuous : sign_ok ex_name ex_email 1700000000 (-12600).
-Proof. exact ex_sign_ok. Qed.
+Example C12_nonvacuous : sign_ok CommitFacts.ex_name CommitFacts.ex_email 1700000000 (-12600).
+Proof. exact CommitFacts.ex_sign_ok. Qed.
+
+
+(* ---------- Part 2: the commands ---------- *)
+(* T4: what `log` reads back of a commit whose text is the text commit()
+   formats: name, e-mail, instant and UTC offset of the author and the message *)
+Theorem C12_log_reads_back_what_was_written : forall st id tree parent na ea ta oa nc ec tc oc msg,
+  get_kind st KCommit id
+  = Some (commit_text tree (option_map hex parent) (sign_string na ea ta oa) (sign_string nc ec tc oc) msg) ->
+  length tree = 20%nat -> (forall p, parent = Some p -> length p = 20%nat) ->
+  sign_ok na ea ta oa -> sign_ok nc ec tc oc -> msg_ok msg ->
+  log_entry st id = Some (hex id, Some (mkSign na ea ta oa), msg).
+Proof. exact log_entry_of_commit_text. Qed.
+
+(* T5: the commit a successful `commit` writes, on ANY world, is shown by `log`
+   with the configured identity, the clock reading and zone offset of that
+   moment and the message given — and keeps being shown so after any later
+   history of commands and edits (absent a flagged SHA-1 collision) *)
+Theorem C12_commit_then_log : forall e c msg w root subs h,
+  Forall valid_entry (idx_of w) -> write_tree_top (idx_of w) = Some (root, subs) ->
+  (forall d, In d (subs ++ [root]) -> (lenN d < 2 ^ 63)%N) ->
+  (lenN (commit_data e c msg w root) < 2 ^ 63)%N ->
+  sign_ok (user_name (x_l c) (x_g c)) (user_email (x_l c) (x_g c)) (e_time e) (e_off e) ->
+  msg_ok msg -> (forall tip, tip_of w = Some tip -> length tip = 20%nat) -> head_ok w c ->
+  w_coll (run h (after_commit e c msg w root subs)) = false ->
+  log_entry (w_objs (run h (after_commit e c msg w root subs))) (commit_id e c msg w root)
+  = Some (hex (commit_id e c msg w root),
+          Some (mkSign (user_name (x_l c) (x_g c)) (user_email (x_l c) (x_g c)) (e_time e) (e_off e)), msg).
+Proof. exact log_entry_after_commit_for_ever. Qed.
 
 Print Assumptions C12_sign_pattern_is_the_source_pattern.
 Print Assumptions C12_sign_shape.
@@ -60,3 +89,5 @@ Print Assumptions C12_tz_form.
 Print Assumptions C12_sign_roundtrip.
 Print Assumptions C12_sign_roundtrip_quarter_hours.
 Print Assumptions C12_commit_roundtrip.
+Print Assumptions C12_log_reads_back_what_was_written.
+Print Assumptions C12_commit_then_log.
